@@ -70,6 +70,17 @@ def patterns():
     P["res-folded-past-cap"] = (lambda k: (rq, RES + b"X-Long: " + b"a" * 102500 + b"\r\n" + (b" " + b"b" * 1000 + b"\r\n") * (k // 3) + b"Content-Length: 0\r\n\r\n"), "res", None)
     P["req-folded-past-cap"] = (lambda k: (REQ_HEAD % b"" + b"X-Long: " + b"a" * 102500 + b"\r\n" + (b" " + b"b" * 1000 + b"\r\n") * (k // 3) + b"\r\n", b""), "req", None)
     P["res-folded-to-cap"] = (lambda k: (rq, RES + b"X-Long: v\r\n" + (b" " + b"b" * 1000 + b"\r\n") * (k // 2) + b"Content-Length: 0\r\n\r\n"), "res", None)
+    # k parameters / parts with pairwise DISTINCT names (registration must not look the name up among the ones already registered)
+    P["req-query-distinct-params"] = (lambda k: (REQ_HEAD % (b"?" + b"&".join(b"p%d=" % i for i in range(k))) + b"\r\n", b""), "req", None)
+    def ue_distinct(k):
+        body = b"&".join(b"p%d=v" % i for i in range(k))
+        return (b"POST / HTTP/1.1\r\nHost: a\r\nContent-Type: application/x-www-form-urlencoded\r\nContent-Length: %d\r\n\r\n" % len(body) + body, b"")
+    P["req-urlencoded-distinct-params"] = (ue_distinct, "req", None)
+    def mp_distinct(k):
+        body = b"".join(b"--BB\r\nContent-Disposition: form-data; name=\"p%d\"\r\n\r\nv\r\n" % i for i in range(k)) + b"--BB--\r\n"
+        return (b"POST / HTTP/1.1\r\nHost: a\r\nContent-Type: multipart/form-data; boundary=BB\r\nContent-Length: %d\r\n\r\n" % len(body) + body, b"")
+    P["req-multipart-distinct-parts"] = (mp_distinct, "req", None)
+    P["req-distinct-cookies"] = (lambda k: (REQ_HEAD % b"" + b"Cookie: " + b"; ".join(b"c%d=1" % i for i in range(k)) + b"\r\n\r\n", b""), "req", None)
     P["res-identity-body"] = (lambda k: (rq, RES + b"Content-Length: %d\r\n\r\n" % (8 * k) + b"abcdefgh" * k), "res", None)
     return P
 
